@@ -340,4 +340,26 @@ inductive Reach (cfg : Cfg) : List Ev → Queue → Prop where
   | deq {log q} (t n : Nat) (order : List String) : Reach cfg log q →
       Reach cfg (.deq t n (dequeue cfg t n order q).2 :: log) (dequeue cfg t n order q).1
 
+/-! ## a unit of work through the whole node
+
+At node level (all flows wired by the plugin constructor around ONE retry queue) a unit of work is checked,
+and checked again after every retryable failure, until the pipeline gives an answer that is not a retryable
+failure.  `script` is the pipeline's successive answers for that unit of work. -/
+
+/-- how many times the pipeline is asked -/
+def planChecks : List Res → Nat
+  | [] => 0
+  | r :: rs => if r.retryableFail then planChecks rs + 1 else 1
+
+/-- the terminal answer, if the script has one -/
+def planTerminal : List Res → Option Res
+  | [] => none
+  | r :: rs => if r.retryableFail then planTerminal rs else some r
+
+/-- what ends up staged -/
+def planStaged (script : List Res) : List CheckResult :=
+  match planTerminal script with
+  | some r => if r.succEligible then [r.cr] else []
+  | none => []
+
 end AutoVerif.C12
